@@ -67,6 +67,14 @@ CHECKS = {
             "Decode totality and accessor safety as zero-annotation no-panic obligations with precondition true (slice bounds of the version prefix, Token[0], TokenProofs[0], ...) on DecodeToken/V3/V4 and every accessor of both formats on arbitrary decoded values; Amount = sum of the proofs mod 2^64 in both formats (nested-loop invariants over spec sums); NewTokenV3 clears DLEQ when not requested; NewTokenV4 per-proof field conversion (amount, secret, witness, C decoded from hex) and DLEQ present iff requested and available, complete (e, s, r) or error. The full round trip through the real codecs incl. the V4 grouping map is a BOUNDED stand-in (bounded/token_roundtrip).",
             "Assumed: json/cbor/base64 libraries do not panic (A-LIB1). Bounded (not proved): round trip build->serialize->decode, within the bound in evidence.",
             "DESIGN.md §8 C14"),
+    "C18": (True,
+            "PARTIAL. Spec of the wallet's fee arithmetic over mathematical integers (ceil(sum of ppk / 1000) with the active / inactive keyset lookup of feesForProofs). Proved for all inputs: feesForProofs and feesForCount equal the spec (loop invariants); selectProofsToSend: a successful selection is worth at least the amount plus, when fees are requested, the input fee of exactly the proofs selected (loop invariant over the greedy search incl. its sorting, slicing and re-partitioning); selectProofsForAmount: where the inactive-keyset and the active-keyset selections are joined they cover the amount plus BOTH input fees (hence the fee of the whole, ceilings being subadditive); getProofsForAmount's offline path returns exactly amount + fee (equality test in the code, under contract); swapToSend: the fee added on top is at least the mint's fee for the amount outputs plus one proof, and (KNOWN FINDING, open) NOT always the fee for the proofs actually handed out; AmountSplit sums to its argument with distinct powers of two (shared with C14).",
+            "NOT decided: 'a send of no more than balance minus fees always succeeds' (completeness of a greedy search; not expressible as a cheap contract), that the proofs handed out are unspent at the mint (mint-side state), removal from the spendable store on every path, the composition Send -> recipient Receive (two parties). Assumed: A-FEESUM (ppk sums and count*ppk below 2^63: no wrap in the fee arithmetic), amounts below 2^60, wallet proof getters return newly built slices.",
+            "DESIGN.md §8 C18"),
+    "C19": (True,
+            "PARTIAL. Ghost model of the NUT-13 counters (stored counter per keyset, end of the last derived range, 'may be signed up to'). Proved for all inputs on the paths under contract: createBlindedMessages takes the counters old..old+len-1 in order and advances the caller's counter by exactly len (loop invariant; generateDeterministicSecret proved to derive secret and blinding factor from the two different children 0 and 1 of counter'); wallet.MintTokens and swapToSend (with and without spending condition, with and without change) start deriving at the stored counter, never below anything that may already be signed (call-site obligation), and on success leave the stored counter past everything they had signed - incl. the exact increment arithmetic over send and change outputs and the uint32 conversions; getActiveKeyset (keyset rotation, fee change) never moves a stored counter backwards; Restore saves the counter only after a batch with signatures and then sets it to exactly the scan position, starting from 0.",
+            "NOT covered (no contract yet, stated): Receive / ReceiveHTLC / swapToTrusted / Melt change outputs / CheckMeltQuoteState / ReclaimUnspentProofs counter handling, wallet crash points between POST and counter increment, restore completeness over whole histories (a multi-party, whole-history statement), interleavings of wallet operations (Receive derives outside the wallet lock). Assumed: bolt implements the counter part of storage.WalletDB (Increment adds, SaveKeyset writes the record's counter, GetKeysetCounter reads it); A-COUNTER: a counter range never crosses 2^31 (hardened index); A-KEYSET: keyset ids are 8 bytes and stored public keys are non-nil; history induction only over successful (fault-free) operations, as the property states.",
+            "DESIGN.md §8 C19"),
     "C20": (True,
             "The response writer is ghost state (status, body). All 13 handlers of mint/server.go proved: the status is 200 or 400; when the mint operation was executed and refused, the answer is 400; (non-cached handlers) 200 only after exactly one successful execution; every error handed to writeErr is a cashu error value or a non-nil *cashu.Error that does NOT carry an internal (DB / Lightning backend) code - proved at every writeErr call site from error-shape postconditions that are themselves proved on every mint API function and helper (Swap, MintTokens, MeltTokens, Request/GetMintQuote*, Request/GetMeltQuote*, ProofsStateCheck, RestoreSignatures, verifyProofs, verifyBlindedMessages, signBlindedMessages, settle*, nut11/nut14 verifiers and parsers, decodeJsonReqBody); writeErr proved to answer 400 with the JSON of exactly that error. NUT-19 cache (swap and mint/bolt11): Cache.Get/Set proved against a map model (hit <=> key present, other keys untouched, stored value = given bytes); the key handed to Get and Set is method + URL + body bytes (call-site clauses); the operation runs only after a decode success and a cache miss; Set is reached only after the operation succeeded; a hit is answered with the cached bytes without executing; a refusal leaves the cache's key set unchanged; the bytes cached are the bytes written.",
             "Assumed: net/http, gorilla/mux (route variables), io.ReadAll, encoding/json as trusted contracts (json output is an uninterpreted function of the marshalled value, URL objects immutable during the exchange); logging is trusted to have no effect. NOT decided: byte-level JSON shapes (field names, enum strings, sorted key maps) - library behaviour driven by struct tags; websocket endpoint; the background cache janitor goroutine; routing/method matching (gorilla/mux).",
